@@ -1165,6 +1165,8 @@ class WcParse(Generic[AnyStr]):
                 if self._sequence_range_check(result, value):
                     removed = True
                 end_range = 0
+                # A hyphen directly behind the range end is a literal, however long the end was spelled (`\c`).
+                escape_hyphen = i.index
             else:
                 result.append(value)
 
